@@ -52,7 +52,23 @@ async fn listen_inner(
     let manager = Arc::new(SessionManager::default());
     let timeout = context.settings.connection_establishment_timeout;
     loop {
-        match tokio::time::timeout(timeout, codec.listen()).await {
+        let listened = {
+            let listen = codec.listen();
+            tokio::pin!(listen);
+            loop {
+                match tokio::time::timeout(timeout, &mut listen).await {
+                    // the same future is awaited again: over HTTP/1.1 it is what writes the
+                    // response body, and dropping it half way would lose the chunk in flight
+                    Err(_elapsed) if manager.active_streams_num.load(Ordering::Acquire) > 0 => log_id!(
+                        trace,
+                        log_id,
+                        "Ignoring timeout due to there are some active streams"
+                    ),
+                    x => break x,
+                }
+            }
+        };
+        match listened {
             Ok(Ok(Some(x))) => {
                 tokio::spawn({
                     let context = context.clone();
@@ -81,11 +97,6 @@ async fn listen_inner(
                 log_id!(debug, log_id, "Session error: {}", e);
                 break;
             }
-            Err(_elapsed) if manager.active_streams_num.load(Ordering::Acquire) > 0 => log_id!(
-                trace,
-                log_id,
-                "Ignoring timeout due to there are some active streams"
-            ),
             Err(_elapsed) => {
                 log_id!(debug, log_id, "Closing due to timeout");
                 if let Err(e) = codec.graceful_shutdown().await {
